@@ -171,9 +171,28 @@ def _transform_rule(ctx, out, qname, getter, elem_cls_mod, name):
 
     jcalls = []
 
+    class TolPV(type(point2d(0, 0))):
+        """the validated vector compares as Point2D does: against pairs too, within 1e-9"""
+
+        def __eq__(self, o):
+            try:
+                ox, oy = o
+            except (TypeError, ValueError):
+                return False
+            return abs(self.x - ox) <= 1e-9 and abs(self.y - oy) <= 1e-9
+
+        def __ne__(self, o):
+            return not self.__eq__(o)
+
+        def __bool__(self):
+            return True
+
+        __hash__ = None
+
     def hook(rn, ev, call, cname, recv, args, kwargs):
         if cname == "Point2D":
-            return point2d(*args)
+            v = point2d(*args)
+            return TolPV(v.x, v.y)
         if cname == "isinstance":
             return True
         if cname == "float" and args and isinstance(args[0], Obj) and hasattr(args[0], "area"):
@@ -189,9 +208,16 @@ def _transform_rule(ctx, out, qname, getter, elem_cls_mod, name):
            "np.float64": float, "math.radians": math.radians, "np.radians": lambda x: float(x) * math.pi / 180,
            "np.deg2rad": lambda x: float(x) * math.pi / 180}
     if name == "move":
-        cases = [((Fr(3), Fr(-4)), {}, lambda a, k: flat(a) == (Fr(3), Fr(-4)) and not k)]
+        tiny = (Fr(1, 10**12), Fr(0))
+        cases = [((Fr(3), Fr(-4)), {}, lambda a, k: flat(a) == (Fr(3), Fr(-4)) and not k),
+                 # a translation below every tolerance of the library is a translation all the same
+                 (tiny, {}, lambda a, k: flat(a) == tiny and not k),
+                 ((5e-10, -5e-10), {}, lambda a, k: flat(a) == (5e-10, -5e-10) and not k)]
     elif name == "scale":
+        near1 = (1 + Fr(1, 10**12), Fr(1))
         cases = [((Fr(2), Fr(5)), {}, lambda a, k: flat(a) + tuple(v for _, v in k) == (Fr(2), Fr(5))
+                  and [n for n, _ in k] in ([], ["yscale"], ["xscale", "yscale"])),
+                 (near1, {}, lambda a, k: flat(a) + tuple(v for _, v in k) == near1
                   and [n for n, _ in k] in ([], ["yscale"], ["xscale", "yscale"]))]
     else:
         def rot_ok(angle, degrees):
@@ -206,7 +232,7 @@ def _transform_rule(ctx, out, qname, getter, elem_cls_mod, name):
                     return False            # points rotate by radians only
                 return close(ang, want) and (bool(deg) == bool(degrees) or (degrees and not deg))
             return chk
-        cases = [((0.75,), {}, rot_ok(0.75, False)), ((0.75, False), {}, rot_ok(0.75, False)),
+        cases = [((0.75,), {}, rot_ok(0.75, False)), ((0.75, False), {}, rot_ok(0.75, False)), ((1e-12,), {}, rot_ok(1e-12, False)),
                  ((30.0, True), {}, rot_ok(30.0, True)), ((30.0,), {"degrees": True}, rot_ok(30.0, True))]
     for args, kwargs, good in cases:
         def curve(label, area):
